@@ -173,7 +173,7 @@ func (g *G) Body(depth int, addressable bool) *schema.BodySchema {
 		b.Blocks = map[string]*schema.BlockSchema{}
 		for i, n := 0, g.pick(4); i < n; i++ {
 			name := g.id("b")
-			if g.coin(0.05) && len(b.Attributes) > 0 {
+			if g.coin(0.05) && len(b.Attributes) > 0 && !g.O.Simple {
 				// attribute / block name clash
 				name = sortedAttrNames(b.Attributes)[0]
 			}
@@ -273,7 +273,7 @@ func (g *G) Block(depth int, top bool) *schema.BlockSchema {
 			bs.Labels[i].SemanticTokenModifiers = lang.SemanticTokenModifiers{lang.SemanticTokenModifier(g.id("lmod"))}
 		}
 	}
-	if g.coin(0.93) {
+	if g.coin(0.93) || g.O.Simple {
 		bs.Body = g.Body(depth, top)
 	}
 	if g.coin(0.25) {
@@ -311,6 +311,9 @@ func (g *G) addDependent(bs *schema.BlockSchema, depth int) {
 	if bs.Body != nil && bs.Body.AnyAttribute == nil && (len(info.LabelIdx) == 0 || g.coin(0.4)) {
 		for i, n := 0, 1+g.pick(2); i < n; i++ {
 			kind := g.pick(4)
+			if g.O.Simple {
+				kind = g.pick(3) // literal keys only (JSON cannot carry a bare traversal)
+			}
 			name := g.id("key")
 			a := g.depKeyAttr(kind)
 			if kind == 0 && g.coin(0.35) {
@@ -431,7 +434,7 @@ func (g *G) addAddress(bs *schema.BlockSchema) {
 	ad.InferDependentBody = ad.DependentBodyAsData && g.coin(0.7)
 	ad.DependentBodySelfRef = ad.InferDependentBody && g.coin(0.4)
 	ad.SupportUnknownNestedRefs = g.coin(0.2)
-	if bs.Body != nil && bs.Body.AnyAttribute == nil && g.coin(0.2) {
+	if bs.Body != nil && bs.Body.AnyAttribute == nil && g.coin(0.2) && !g.O.Simple {
 		name := g.id("type")
 		bs.Body.Attributes[name] = &schema.AttributeSchema{IsOptional: true, Constraint: schema.TypeDeclaration{}, Description: g.desc("typedecl")}
 		ad.AsTypeOf = &schema.BlockAsTypeOf{AttributeExpr: name}
